@@ -49,8 +49,9 @@ type RenameLabel struct {
 func (rl *RenameLabel) Process(_ otelstorage.Timestamp, line string, set LabelSet) (_ string, keep bool) {
 	for _, p := range rl.pairs {
 		if v, ok := set.Get(p.Label); ok {
-			set.Set(p.To, v)
+			// Delete first: renaming a label to itself must keep it.
 			set.Delete(p.Label)
+			set.Set(p.To, v)
 		}
 	}
 	return line, true
